@@ -1,9 +1,9 @@
-\* C15 thorough: every sequence of two updates (14 plugins x 13 ids x 8 device lists) on 5 initial maps, then Parse
+\* C15 thorough: every sequence of two updates over a core universe (6 plugins x 6 ids x 4 device lists) on 5 initial maps
 SPECIFICATION Spec
 CONSTANTS
-  Plugins <- MCPlugins
-  Ids <- MCIds
-  DevLists <- MCDevLists
+  Plugins <- CorePlugins
+  Ids <- CoreIds
+  DevLists <- CoreDevLists
   InitMaps <- MCInitMaps
   MaxSteps = 2
   EMIT = TRUE
